@@ -661,7 +661,7 @@ def switch_conditions(fn, max_depth=24):
     return out
 
 
-def err_variant_reached(fn, start, limit=14):
+def err_variant_reached(fn, start, limit=40):
     """First error-enum variant constructed on the straight-line continuation of block `start`."""
     seen = set()
     q = collections.deque([(start, 0)])
@@ -681,4 +681,9 @@ def err_variant_reached(fn, start, limit=14):
             q.append((t["t"], d + 1))
         elif t["k"] == "call" and t["t"] >= 0:
             q.append((t["t"], d + 1))
+        elif t["k"] == "switch" and set((t.get("span") or {}).get("macros", [])) & {"error", "warn", "info", "debug", "trace", "log"}:
+            # `error!(..)` before `return Err(..)`: the log-level test is not a real branch
+            for a in t["arms"]:
+                q.append((a[1], d + 1))
+            q.append((t["else"], d + 1))
     return None
